@@ -11,6 +11,8 @@ import (
 	"go.nanomsg.org/mangos/v3/protocol/sub"
 	"go.nanomsg.org/mangos/v3/protocol/xpub"
 	"go.nanomsg.org/mangos/v3/protocol/xsub"
+	"go.nanomsg.org/mangos/v3/vh/c08"
+	"go.nanomsg.org/mangos/v3/vh/c19"
 	"go.nanomsg.org/mangos/v3/vh/kit"
 	"go.nanomsg.org/mangos/v3/vh/vt"
 	"go.nanomsg.org/mangos/v3/vz/vexplore"
@@ -30,6 +32,7 @@ func init() {
 			{Name: "sub-match-enum", Mode: "enum", Reset: kit.ResetGlobals, Body: matchEnum, NeedCounters: []string{"match", "nomatch"}},
 			{Name: "sub-overflow", Mode: "enum", Reset: kit.ResetGlobals, Body: overflow},
 			{Name: "sub-sched-unsub-recv", Mode: "sched", Bound: b, Reset: kit.ResetGlobals, Body: schedUnsub},
+			{Name: "sub-queue-length-across-subscription-changes", Mode: "enum", Reset: kit.ResetGlobals, Body: c19.SubQLen, NeedCounters: []string{"context-length-differs-from-the-socket's"}},
 			{Name: "xsub-all", Mode: "enum", Reset: kit.ResetGlobals, Body: xsubAll},
 		}
 		for _, k := range []struct {
@@ -39,6 +42,7 @@ func init() {
 			k := k
 			out = append(out, &vexplore.Scenario{Name: fmt.Sprintf("%s-subscribers-hist-D%d", k.n, d+2), Mode: "hist", Reset: kit.ResetGlobals, Body: func() { pubHist(k.c, d+2) },
 				NeedCounters: []string{"pub-delivered", "pub-joined-later", "pub-left", "pub-slow-subscriber"}})
+			out = append(out, &vexplore.Scenario{Name: k.n + "-slow-subscriber-and-the-two-queue-lengths", Mode: "enum", Reset: kit.ResetGlobals, Body: func() { c08.QueueLengths(k.n, k.c, nil, 0) }, NeedCounters: []string{"slow-peer-given-all-queued"}})
 			out = append(out, &vexplore.Scenario{Name: k.n + "-fanout", Mode: "sched", Bound: b, Reset: kit.ResetGlobals, Body: func() { pubFanout(k.c) }})
 		}
 		return out
@@ -599,7 +603,10 @@ func pubHist(c func() (mangos.Socket, error), depth int) {
 	if err != nil {
 		kit.Failf("setup", "NewSocket: %v", err)
 	}
-	if err := s.SetOption(mangos.OptionWriteQLen, 1); err != nil {
+	// WriteQLen 0: nothing is queued per subscriber, a message goes to whoever is ready for it -
+	// and a subscriber that keeps up is ready every time the publisher sends
+	q := []int{1, 0}[kit.ChooseFree(2)]
+	if err := s.SetOption(mangos.OptionWriteQLen, q); err != nil {
 		kit.Failf("setup", "WriteQLen: %s", kit.ErrName(err))
 	}
 	ep := vt.Get("pubh")
